@@ -136,7 +136,10 @@ pub fn run(rep: &mut Report, opts: &Opts) {
         let ex = if case % 3 == 0 {
             Exec::mt(threads)
         } else {
-            let fo = sim::focus(sim::EXECUTOR_SITES, case, &mut rng);
+            // Half of the delayed executions focus on the injector's own steps.
+            use nexosim::verif_hooks::site;
+            const INJECTOR_SITES: &[u32] = &[site::INJECTOR_POP_BEFORE_FLAG, site::INJECTOR_PUSH_BEFORE_FLAG, site::INJECTOR_INSERT_BEFORE_FLAG, site::MT_WORKER_BUCKET_POPPED];
+            let fo = if case % 3 == 1 { sim::focus(INJECTOR_SITES, case / 3, &mut rng) } else { sim::focus(sim::EXECUTOR_SITES, case / 3, &mut rng) };
             Exec::mt_delays(threads, rng.next(), fo, if case % 3 == 1 { 64 } else { 256 }, if case % 3 == 1 { 2 } else { 0 })
         };
         let replay = opts.replay_args("wide", case);
